@@ -187,9 +187,29 @@ def impl_out_files(beh):
 def judge(pid, beh, obs):
     """Returns (verdict, expected, observed, why) with verdict in ok / viol / out, for property pid."""
     cfg = beh["cfg"]
+    hasout = cfg["out"]["kind"] != "none"
+    if pid == "C14" and hasout and obs["exc"] is None:
+        # closure is demanded of every run, whatever the tree: every toctree entry has a generated target and
+        # every generated page / sub-index is listed by the index of its directory
+        dangling, unlisted = [], []
+        for k, ix in obs["indexes"].items():
+            for e in ix.get("entries", []):
+                target = os.path.normpath(os.path.join(k, e if e.endswith(".rst") else e + ".rst"))
+                if target not in obs["out_files"]:
+                    dangling.append([k, e])
+        for f in obs["out_files"]:
+            d, b = os.path.dirname(f), os.path.basename(f)
+            if b == "index.rst":
+                if d and cfg["recursive"]:
+                    parent = os.path.dirname(d)
+                    if os.path.basename(d) + "/index.rst" not in obs["indexes"].get(parent, {}).get("entries", []):
+                        unlisted.append(f)
+            elif b[:-4] not in obs["indexes"].get(d, {}).get("entries", []):
+                unlisted.append(f)
+        if dangling or unlisted:
+            return "viol", [], {"dangling_entries": dangling, "pages_not_listed": unlisted}, "toctrees are not closed: an entry without target or a generated page no index lists"
     if not beh["indom"]:
         return "out", None, None, None
-    hasout = cfg["out"]["kind"] != "none"
     whole_excluded = beh["outcome"] == "excluded" or (not beh["ideal"]["dirs"])
     if obs["exc"] is not None:
         return "viol", "run completes", obs["exc"], "cminx.document raised / did not terminate normally on an in-domain tree"
